@@ -14,6 +14,7 @@ from pathlib import Path
 
 prop, k = sys.argv[1], sys.argv[2]
 skip_suite = "--skip-suite" in sys.argv
+tag = sys.argv[sys.argv.index("--tag") + 1] if "--tag" in sys.argv else ""
 wt = Path(f"/tmp/wt/{prop}b")
 src = wt / "_out" / f"b{k}"
 PY = "/venv/bin/python"
@@ -48,7 +49,7 @@ try:
         assert r.returncode == 0 and "542 passed" in tail, f"suite does not pass with the patch: {tail}"
 finally:
     sh(["git", "checkout", "--", "permuta"])
-dst = Path(f"/verif/benign/{prop}-b{k}")
+dst = Path(f"/verif/benign/{prop}-{tag}b{k}")
 dst.mkdir(parents=True, exist_ok=True)
 shutil.copy(src / "patch.diff", dst / "patch.diff")
 shutil.copy(src / "equiv.py", dst / "equiv.py")
